@@ -3,6 +3,7 @@
 package autocert
 
 import (
+	"crypto/tls"
 	mathrand "math/rand"
 	"sync"
 	"time"
@@ -75,4 +76,15 @@ func VerifBlockRenewal(m *Manager, domain string, isRSA bool) {
 	if m.renewal[ck] == nil {
 		m.renewal[ck] = &domainRenewal{m: m, ck: ck}
 	}
+}
+
+// VerifPutCertToken stores a tls-alpn-01 challenge certificate in m.certTokens only (the cache is
+// left alone, unlike putCertToken).
+func VerifPutCertToken(m *Manager, name string, cert *tls.Certificate) {
+	m.challengeMu.Lock()
+	defer m.challengeMu.Unlock()
+	if m.certTokens == nil {
+		m.certTokens = make(map[string]*tls.Certificate)
+	}
+	m.certTokens[name] = cert
 }
